@@ -1,0 +1,23 @@
+//go:build verif
+
+package serf
+
+// Accessor used only by the verification harness (/verif). Compiled only with -tags verif.
+
+// VerifOpenQuery identifies a query this node has issued and is still collecting
+// replies for.
+type VerifOpenQuery struct {
+	LTime LamportTime
+	ID    uint32
+}
+
+// VerifOpenQueries lists the locally issued queries that are still registered.
+func (s *Serf) VerifOpenQueries() []VerifOpenQuery {
+	s.queryLock.RLock()
+	defer s.queryLock.RUnlock()
+	out := make([]VerifOpenQuery, 0, len(s.queryResponse))
+	for lt, q := range s.queryResponse {
+		out = append(out, VerifOpenQuery{LTime: lt, ID: q.id})
+	}
+	return out
+}
